@@ -61,6 +61,11 @@ func ExecDev(c *Case) (nontrivial bool, labels []string, fail *vlib.Failure) {
 		gdev = vlib.NewGNMIDevice(device)
 		defer gdev.Stop()
 		gdev.Chunk, gdev.Blobs, gdev.Prefix = d.Chunk, d.Blobs, d.Prefix
+		vlib.GNMIQualifyIdentityKeys = d.QualKeys
+		defer func() { vlib.GNMIQualifyIdentityKeys = false }()
+		if d.QualKeys {
+			lab["identityref-keys-module-qualified"] = true
+		}
 		if d.Prefix {
 			lab["gnmi-notification-prefix"] = true
 		}
